@@ -16,11 +16,12 @@ import (
 
 const vpVerifyCR = "(github.com/comdex-official/comdex/x/vault/keeper.Keeper).VerifyCollaterlizationRatio"
 
-// decimal scales (collateral, debt) of the gate lemma. The last three pairs (10^18 vs 10^18 and 1 vs 10^18) are undecided at the
-// 60 s cap of the quick tier and run in the thorough tier only (300 s cap).
-var vpDecimalPairs = [][2]int64{{1, 1}, {1000000, 1000000}, {1000000, 100000000}, {100000000, 1000000}, {1000000, 1000000000000000000},
-	{1000000000000000000, 1000000}, {1, 1000000}, {1000000, 1},
+// decimal scales (collateral, debt) of the gate lemma
+var vpDecimalPairs = [][2]int64{{1, 1}, {1000000, 1000000}, {1000000, 100000000}, {100000000, 1000000}, {1, 1000000}, {1000000, 1},
+	{1000000, 1000000000000000000}, {1000000000000000000, 1000000},
 	{1000000000000000000, 1000000000000000000}, {1, 1000000000000000000}, {1000000000000000000, 1}}
+
+const vpQuickDecimalPairs = 6 // the pairs involving 10^18 take 20 s to more than 60 s per query: thorough tier only (300 s cap)
 
 // C03 (i) gate lemma: outside emergency shutdown, VerifyCollaterlizationRatio returns nil only if the exact collateral
 // value divided by the exact debt value is at least MinCr up to the three decimal roundings of the implementation,
@@ -45,7 +46,7 @@ func VP_C03_GateLemma() {
 	zzvp.AnyOf(&ti)
 	zzvp.AnyOf(&to)
 	zzvp.Assume(zzvp.And(ext.PairId == pair.Id, pair.AssetIn == ai.Id, pair.AssetOut == ao.Id, ai.Id != ao.Id, ti.AssetID == ai.Id, to.AssetID == ao.Id))
-	np := len(vpDecimalPairs) - 3
+	np := vpQuickDecimalPairs
 	if zzvp.Thorough() {
 		np = len(vpDecimalPairs)
 	}
